@@ -257,7 +257,9 @@ def gen_step(rng, nslots):
         return {'op': 'wrap'}
     st = {'op': rng.choice(['add', 'sub', 'mul', 'div']), 'mode': rng.choice(['plain', 'plain', 'inplace', 'refl'])}
     r = rng.random()
-    if r < .2:
+    if r < .02:
+        st.update(okind='bool', oval=rng.choice(['True', 'False']))      # bool is an int: operand 1 / 0
+    elif r < .2:
         st.update(okind='int', oval=str(gen_int(rng)))
     elif r < .4:
         st.update(okind='dec', oval=gen_dec(rng))
@@ -439,6 +441,8 @@ class Case:
         k = st['okind']
         if k == 'int':
             return int(st['oval'])
+        if k == 'bool':
+            return st['oval'] == 'True'
         if k == 'dec':
             return Decimal(st['oval'])
         if k == 'free':
